@@ -1,6 +1,7 @@
 (* C14 -- user-supplied policies decide, exactly as documented (push policy
    part: list core).  Property theorems only. *)
 From Stackage Require Import Base Generated StackImpl StackSpec StackSpecLemmas StackRefine StackCorollaries.
+From Stackage Require Import PushTie.
 Open Scope Z_scope.
 
 (* For EVERY policy (an arbitrary function pol), every batch and every
@@ -53,6 +54,27 @@ Proof.
   unfold positive. change g_flag_positive with has. change c_ronly with f_ronly. rewrite Hro. reflexivity.
 Qed.
 Print Assumptions c14_policy_removed.
+
+
+(* ... and so is the loop used when a push policy is installed
+   (stack.methodAppend): room is tested before the policy is consulted, a
+   rejection records the error and ends the batch (cut 0: "r.setErr(err);
+   break"), an approval appends (cut 1) *)
+Theorem c14_policy_push_loop_is_the_source_loop :
+  forall (V : Type) (pol : N -> V -> option N) (p : N) (c : scfg) (r : raw V) (x : V) (xs log : list V),
+    method_append V pol p c r (x :: xs) log =
+    match g_methodAppend_body (g_isFull (zlen r) (k_cap c)) (match pol p x with Some _ => true | None => false end) with
+    | TCut 0 _ _ => (r, pol p x, log ++ [x])
+    | TCut 1 _ _ => method_append V pol p c (r ++ [SVal x]) xs (log ++ [x])
+    | _ => method_append V pol p c r xs log
+    end /\
+    g_methodAppend_body_tails = ["r.setErr(err); break"%string; "*r = append(*r, x[i]); pct++"%string] /\
+    g_genericAppend_body_tails = ["*r = append(*r, x[i]); pct++"%string].
+Proof.
+  intros. split; [exact (method_append_iteration V pol p c r x xs log)|].
+  split; [exact method_append_cut_tails|exact generic_append_cut_tails].
+Qed.
+Print Assumptions c14_policy_push_loop_is_the_source_loop.
 
 Example c14_nonvacuous :
   let pol := fun (p : N) (v : Z) => if v =? 3 then Some 7%N else None in
